@@ -25,8 +25,10 @@ EXPLANATION = (
     "value that may alias the parameter; no step or helper stores through a parameter; make_cost_matrix builds new "
     "lists; (D2, INIT on the CFG) every instance field read by steps 1-6, their helpers and the result loop is "
     "definitely assigned in compute() on every path to the dispatch loop, from values that only depend on the "
-    "argument and on fields assigned earlier in the same call -- so a solve is a function of its argument only and "
-    "reuse of a solver object cannot see an earlier solve; (D3, NF/TABLE) results are read for rows < number of "
+    "argument and on fields assigned earlier in the same call (a field read only by step k is also accepted when every "
+    "step that hands control to k stores it first, which is how Z0_r/Z0_c are proved fresh independently of their "
+    "assignment in compute) -- so a solve is a function of its argument only and reuse of a solver object cannot see an "
+    "earlier solve; (D3, NF/TABLE) results are read for rows < number of "
     "rows of the argument and columns < its width where marked == 1 and emitted as (row, col); the padding value is "
     "a small finite number; the dispatch table has keys 1..6 bound to the six step methods and every step hands "
     "control to exactly the successors of the Munkres flow chart (1->2, 2->3, 3->4|done, 4->5|6, 5->3, 6->4), 'done' "
@@ -45,7 +47,9 @@ NOT_DECIDED = (
     "float-equality tests inside the six steps, which no static argument in reach establishes. The check decides "
     "only clause 2 (caller's matrix unmodified) and clause 3 (same behaviour on reuse, given that the steps are "
     "deterministic functions of the re-initialised fields) of the property plus the result-extraction/step-table "
-    "necessary conditions, and nothing about clause 1.")
+    "necessary conditions, and nothing about clause 1. D4 compares the steps with the reviewed textbook steps cell by cell; "
+    "that catches edits which drop or misdirect an adjustment (e.g. skipping covered rows in step 6) but it is not a proof "
+    "that the reference algorithm, or its float-equality zero tests, are optimal.")
 ASSUMPTIONS = ["cost matrices are lists of lists of numbers (row[:] copies a row); the steps are deterministic "
                "functions of the instance fields (no randomness, no global state)"]
 
